@@ -26,7 +26,7 @@ var hosts = []string{
 
 func TestC17(t *testing.T) {
 	s := explore.NewSuite(t, "C17", "exploration",
-		"every ordered list of <=L rules (L=2 quick, 3 thorough; plus L=4 over a 6-rule sub-alphabet in thorough) drawn from 22 regular expressions x {include, exclude}, each evaluated on 27 host strings through ruleset.ParseRegexpListItem + NewRegexpMatcherFromList (+Inverse) and compared with a reference that evaluates every rule on its own with package regexp; plus (concurrent-matchers, Engine T) one matcher and its inverse used by two threads at once for 4x4 hosts over 3 lists, ruleset/regexp.go rebuilt with a scheduling point before every statement, every interleaving with at most 2 (quick) / 3 (thorough) preemptions, verdicts of the two callers and of every later sequential caller compared with the per-rule reference; non-trivial = the list has at least one include rule so a matcher is built and compared")
+		"every ordered list of <=L rules (L=2 quick, 3 thorough; plus L=4 over a 6-rule sub-alphabet in thorough) drawn from 22 regular expressions x {include, exclude}, each evaluated on 27 host strings through ruleset.ParseRegexpListItem + NewRegexpMatcherFromList (+Inverse) and compared with a reference that evaluates every rule on its own with package regexp; plus (list-lengths) every list of 1-40 include rules and 0-40 exclude rules, each rule matching exactly one host, checked on 42 hosts; plus (concurrent-matchers, Engine T) one matcher and its inverse used by two threads at once for 4x4 hosts over 3 lists, ruleset/regexp.go rebuilt with a scheduling point before every statement, every interleaving with at most 2 (quick) / 3 (thorough) preemptions, verdicts of the two callers and of every later sequential caller compared with the per-rule reference; non-trivial = the list has at least one include rule so a matcher is built and compared")
 	s.Assume = []string{"package regexp (used for the per-rule reference) is trusted"}
 	compiled := make([]*regexp.Regexp, len(rules))
 	for i, r := range rules {
@@ -121,6 +121,41 @@ func TestC17(t *testing.T) {
 	s.Add(explore.Scenario{Name: "lists<=2", Tiers: []string{"quick"}, Run: run(2, full)})
 	s.Add(explore.Scenario{Name: "lists<=3", Tiers: []string{"thorough"}, Run: run(3, full)})
 	s.Add(explore.Scenario{Name: "lists<=4/flags", Tiers: []string{"thorough"}, Run: run(4, []int{0, 1, 4, 10, 14, 17})})
+	// lists of every length: n include rules and m exclude rules, each matching exactly one host
+	s.Add(explore.Scenario{Name: "list-lengths", Run: func(x *explore.X) {
+		n := 1 + x.ChooseFree("include-rules-1", 40)
+		m := x.ChooseFree("exclude-rules", 41)
+		var items []ruleset.RegexpListItem
+		for i := 0; i < n; i++ {
+			it, _ := ruleset.ParseRegexpListItem(fmt.Sprintf(`^i%d\.test$`, i))
+			items = append(items, it)
+		}
+		// the j-th exclude rule excludes host i<j> (an included host when j < n)
+		for j := 0; j < m; j++ {
+			it, _ := ruleset.ParseRegexpListItem(fmt.Sprintf(`-^i%d\.test$`, j))
+			items = append(items, it)
+		}
+		mt, err := ruleset.NewRegexpMatcherFromList(items)
+		if err != nil {
+			x.Failf("valid-list-rejected", "%d include + %d exclude rules: %v", n, m, err)
+			return
+		}
+		inv := mt.Inverse()
+		x.Check()
+		for i := 0; i < 42; i++ {
+			h := fmt.Sprintf("i%d.test", i)
+			want := i < n && !(i < m)
+			if got := mt.Match(h); got != want {
+				x.Failf("list-differs-from-per-rule-union/long-list", "%d include rules (^iK\\.test$ for K<%d) and %d exclude rules (K<%d): Match(%q) = %v, want %v", n, n, m, m, h, got, want)
+				return
+			}
+			if inv.Match(h) != !want {
+				x.Failf("inverse/long-list", "%d include + %d exclude rules: Inverse().Match(%q) = %v, want %v", n, m, h, inv.Match(h), !want)
+				return
+			}
+		}
+		x.Outcome(fmt.Sprintf("%d", min(n, 3)*10+min(m, 3)))
+	}})
 	s.Add(explore.Scenario{Name: "concurrent-matchers", Remote: true, MaxDev: map[string]int{"quick": 2, "thorough": 3},
 		Run: func(x *explore.X) { concurrentMatchers(t, x) }})
 	s.Main()
